@@ -207,4 +207,61 @@ theorem iter_pre_some_result (c : Nat) (step : St → Out) (hstep : ∀ N, Advan
   rw [h] at hi; cases hi
   exact h2
 
+/-! ### Generic iterator -/
+
+/-- **Termination of `iterG` by a measure**, with a transitive relation `R` between the entry state and the state at
+the exit, and postconditions for the two kinds of exit. -/
+theorem iterG_measure {σ : Type} (step : σ → OutG σ) (Inv : σ → Prop) (μ : σ → Nat) (R : σ → σ → Prop)
+    (Qb Qe : σ → Prop) (htrans : ∀ a b c, R a b → R b c → R a c)
+    (hstep : ∀ s, Inv s →
+      (∃ s', step s = .brk s' ∧ R s s' ∧ Qb s') ∨ (∃ s', step s = .exit s' ∧ R s s' ∧ Qe s') ∨
+      (∃ s', step s = .cont s' ∧ Inv s' ∧ R s s' ∧ μ s' < μ s)) :
+    ∀ (fuel : Nat) (s : σ), Inv s → μ s < fuel →
+      ∃ e s', iterG step fuel s = some (e, s') ∧ R s s' ∧ (if e then Qe s' else Qb s') := by
+  intro fuel
+  induction fuel with
+  | zero => intro s _ hd; omega
+  | succ f ih =>
+    intro s hI hd
+    rcases hstep s hI with ⟨s', hs, hr, hq⟩ | ⟨s', hs, hr, hq⟩ | ⟨s', hs, hI', hr, hμ⟩
+    · exact ⟨false, s', by simp [iterG, hs], hr, by simpa using hq⟩
+    · exact ⟨true, s', by simp [iterG, hs], hr, by simpa using hq⟩
+    · obtain ⟨e, s'', hit, hr', hq⟩ := ih s' hI' (by omega)
+      exact ⟨e, s'', by simp [iterG, hs, hit], htrans _ _ _ hr hr', hq⟩
+
+/-- backward distance, 0 when equal: in `0..n` -/
+def distB0 (s : St) : Nat := if s.segFirst ≤ s.last then s.last - s.segFirst else s.last + s.n - s.segFirst
+
+/-- Contract of a TEST-FIRST backward scan (`while last != target { …; last = prev(last) }`) -/
+def RetreatsPre (N c : Nat) (step : St → Out) : Prop :=
+  ∀ s : St, s.n = N → s.last < s.n → s.segFirst < s.n →
+    (∃ s', step s = .brk s' ∧ s'.n = s.n ∧ s.tick < s'.tick ∧ s'.tick ≤ s.tick + c) ∨
+    (∃ s', step s = .cont s' ∧ s.last ≠ s.segFirst ∧ s'.n = s.n ∧ s'.segFirst = s.segFirst ∧
+        s'.last = cprev s.n s.last ∧ s.tick < s'.tick ∧ s'.tick ≤ s.tick + c)
+
+/-- a test-first backward scan exits within `n` body executions, `n * c` ticks -/
+theorem iter_retreats_pre (N c : Nat) (step : St → Out) (hstep : RetreatsPre N c step) (s : St)
+    (hN : s.n = N) (hl : s.last < s.n) (hf : s.segFirst < s.n) :
+    ∃ s', iter step (s.n + 1) s = some s' ∧ s'.n = s.n ∧ s.tick < s'.tick ∧ s'.tick ≤ s.tick + s.n * c := by
+  have key := iter_measure step (InvN N) distB0 c (by
+    intro s ⟨hN, hl, hf⟩
+    rcases hstep s hN hl hf with ⟨s', hs, h⟩ | ⟨s', hs, hne, hn, hsf, hpv, ht⟩
+    · exact .inl ⟨s', hs, h⟩
+    · have := cprev_spec s.n s.last
+      refine .inr ⟨s', hs, ⟨by omega, by omega, by omega⟩, hn, ?_, ht⟩
+      unfold distB0; rw [hn, hsf]; split <;> split <;> omega) (s.n + 1) s ⟨hN, hl, hf⟩
+    (by unfold distB0; split <;> omega)
+  obtain ⟨s', h1, h2, h3, h4⟩ := key
+  have : (distB0 s + 1) * c ≤ s.n * c := Nat.mul_le_mul_right c (by unfold distB0; split <;> omega)
+  exact ⟨s', h1, h2, h3, by omega⟩
+
+/-- measure of the main loop of `build_segments`: before `passed` is set a whole turn is still to come -/
+def segMainMeasure (s : StF) : Nat := (if s.flag then 0 else s.n) + dist0 s.toSt
+
+/-- "the counter only grows": relation between the state at the entry of a counting loop and at its exit -/
+def Grows (s s' : St) : Prop := s'.segFirst = s.segFirst ∧ s.last ≤ s'.last ∧ s'.n = s.n
+
+theorem grows_trans (a b c : St) (h1 : Grows a b) (h2 : Grows b c) : Grows a c := by
+  unfold Grows at *; omega
+
 end FontVerif.LoopIterLemmas
